@@ -153,11 +153,17 @@ def string_cases(tier, seed, want, tag, sizing=False, hostile=False,
         k += 1
         if want(k) and ok(src):
             yield k, {'s': src, 'w': 'corpus'}
-    for j in range(int((8 if q else 400) * scale)):
+    # single-character faults of W1 documents: quick = a sample of 150 faults
+    # from each of 48 documents (many document shapes beat every position of
+    # a few), thorough = every fault of 400 documents
+    for j in range(int((48 if q else 400) * scale)):
         rng = _r.Random('%d/%d/%s/d' % (seed, j, tag))
         src, _ = docgen.gen_doc(rng, cfg_general(j, 'quick'))
         src = src[:220]
-        for kind, m in mutgen.faults(src, rng, ins_per_pos=1):
+        fl = list(mutgen.faults(src, rng, ins_per_pos=1 if not q else 2))
+        if q and len(fl) > 150:
+            fl = rng.sample(fl, 150)
+        for kind, m in fl:
             k += 1
             if want(k) and ok(m):
                 yield k, {'s': m, 'w': 'fault:' + kind}
